@@ -320,7 +320,7 @@ class JordanCurve:
         ((2, 3), (6, 3), (2, 6))
 
         """
-        point = Point2D(*point)
+        point = Point2D(0, 0).move(Point2D(*point))
         for vertex in self.vertices:
             vertex.move(point)
         return self
